@@ -293,16 +293,8 @@ def reset_stops_loop(ctx, sr, eng, f, st, evs, clear_idx):
         return 'the loop that installs the stops does not follow the clear'
     if not isinstance(h, int) or h not in loops:
         return 'stop-installing iteration is not a plain loop'
-    blocks = loops[h]
-    # `h` calls next(); the block that matches on its result is the only other place the loop is left
-    hsucc = body.succs(h)
-    exit_ok = {h} | ({hsucc[0]} if body.blocks[h]['term']['k'] == 'call' and len(hsucc) == 1 and body.blocks[hsucc[0]]['term']['k'] == 'switch' else set())
-    for b in blocks:
-        if b in exit_ok:
-            continue
-        for s2 in body.succs(b):
-            if s2 not in blocks and not body.blocks[s2].get('cleanup') and body.blocks[s2]['term']['k'] != 'unreachable':
-                return 'the loop that installs the stops can be left early (bb%d -> bb%d)' % (b, s2)
+    if not g.loop_exits_only_at_head(body, h, eng, f):
+        return 'the loop that installs the stops can be left early'
     for (sg, ins, lev) in by_head[h]:
         s_ = sg['st']
         if len(ins) != 1 or not isinstance(ins[0][2], NumV) or ins[0][2].sym is None or ins[0][2].k != 0:
